@@ -752,3 +752,54 @@ def run(rep, tier):
              f"{rep.dist.get('L14.pre-post.distinguished', 0)}/{rep.dist.get('L14.pre-post.shapes', 0)} prefix x postfix, "
              f"{rep.dist.get('L14.bin-post.distinguished', 0)}/{rep.dist.get('L14.bin-post.shapes', 0)} binary x postfix, "
              f"{rep.dist.get('L14.triples.distinguished', 0)}/{rep.dist.get('L14.triples.shapes', 0)} triples distinguished")
+    run_spacing(rep)
+
+
+def run_spacing(rep):
+    """Operators that share a prefix with another token, written with and without white space: the
+    value is fixed by the documented table (independent oracle, computed here by hand), and the
+    model's own front end (text -> Peg -> Pratt -> Front) must agree with the implementation."""
+    from .l6_peg import sx_str
+    pre = ("m := mut 10; add := (acc: int, x: int) -> int { return acc + x }; "
+           "band := (acc: int, x: int) -> int { return acc & x }; b := false; "
+           "pick := (acc: bool, x: bool) -> bool { return acc || x }; ")
+    cases = [
+        ("[1, 2, 3]~ $ *m add", "ok (i 16)"),            # reduce with the dereferenced cell as initial value
+        ("[1, 2, 3]~ $ (*m) add", "ok (i 16)"),
+        ("[1, 2, 3]~ $*", "ok (i 6)"),                    # the product reducer
+        ("[1, 2, 3]~ $* + 1", "ok (i 7)"),
+        ("[2, 3]~ $ -1 add", "ok (i 4)"), ("[2, 3]~ $-1 add", "ok (i 4)"),
+        ("[6, 3]~ $ !0 band", "ok (i 2)"), ("[6, 3]~ $!0 band", "ok (i 2)"),
+        ("[true]~ $ !b pick", "ok (b true)"), ("[false]~ $!b pick", "ok (b true)"),
+        ("[1, 2]~ $+ + 1", "ok (i 4)"), ("[1, 2]~ $+", "ok (i 3)"),
+        ("[5, 3]~ $& + 0", "ok (i 1)"), ("[5, 3]~ $| + 0", "ok (i 7)"),
+        ("[true, false]~ $&&", "ok (b false)"), ("[true, false]~ $||", "ok (b true)"),
+        ("1 < 2 == true", "ok (b true)"), ("1 == 2 == false", "ok (b true)"), ("(1 < 2) == true", "ok (b true)"),
+        ("2 > 1 != false", "ok (b true)"), ("1 <= 1 == (2 >= 3)", "ok (b false)"),
+        ("x := mut 3; x <<= 2; *x", "ok (i 12)"), ("x := mut 12; x >>= 2; *x", "ok (i 3)"),
+        ("x := mut 3; x **= 2; *x", "ok (i 9)"), ("x := mut 5; x &= 3; x |= 8; x ^= 1; *x", "ok (i 8)"),
+        ("a := [1, 2, 3]; *m + a~ $+", "ok (i 16)"),
+        ("a := mut [1, 2, 3]; *a~ $+", "ok (i 6)"), ("t := (mut [4, 5], 0); *t.0~ $+", "ok (i 9)"),
+        ("-2 ** 2", "ok (i 4)"), ("2 ** 3 ** 2", "ok (i 64)"), ("-[1, 2][0]", "ok (i -1)"),
+        ("!true || true", "ok (b true)"), ("1 - 1 + 2", "ok (i 2)"), ("10 - 1 - 2", "ok (i 7)"),
+        ("f := (x: int) -> int { return x - 1 + 2 }; f(10)", "ok (i 11)"),
+        ("f := (x: int) -> int { return x - 1 - 2 }; f(10)", "ok (i 7)"),
+        ("f := (x: int) -> int { return x / 2 * 2 }; f(7)", "ok (i 6)"),
+        ("f := (x: int) -> int { return x % 4 % 3 }; f(11)", "ok (i 0)"),
+        ("f := (x: int) -> int { return x << 1 << 2 }; f(1)", "ok (i 8)"),
+    ]
+    ic = ['(run "' + l7_programs.esc(pre + t) + '")' for t, _ in cases]
+    mc = ["(src-ty " + sx_str(pre + t) + ")" for t, _ in cases]
+    io = common.run_cases(common.HARNESS, ic)
+    mo = common.run_cases(common.DRIVER, mc, env={"VERIF_HELPERS": l7_programs.HELPERS}, timeout=120)
+    rep.evaluations += 2 * len(cases)
+    for (t, want), i, m, c in zip(cases, io, mo, ic):
+        rep.compared += 1
+        rep.count("L14.spacing")
+        got = l7_programs.norm_impl(i)
+        if got != want:
+            rep.violations.append({"property": "C14", "lane": "L14", "case": c,
+                                   "what": f"`{t}` evaluates to {got[:80]}, the documented grouping / tokenisation gives {want}"})
+        mv = m.split(" :: ")[0]
+        if not m.startswith("!") and mv != got:
+            rep.disagreements.append({"lane": "L14-spacing", "case": c, "model": mv[:200], "impl": got[:200]})
